@@ -51,7 +51,7 @@ def ENCODED():
 def cases(tier, seed):
     ns = [2, 3, 4] if tier == "thorough" else [2, 3]
     groups = ["core"] + list(RATIOS) + ["r_squared_adj"]
-    out = [f"baseline/{n}/{g}" for n in ns for g in groups] + [f"reporting/{n}" for n in ns[:2]] + ["safe_divide/0", "daily_error/3", "gate/0", "hourly_fit/plain", "hourly_fit/adaptive", "hourly_fit/real", "crosshair/leaves", "conditioning/float"]
+    out = [f"baseline/{n}/{g}" for n in ns for g in groups] + [f"reporting/{n}" for n in ns[:2]] + ["safe_divide/0", "daily_error/3", "gate/0", "hourly_fit/plain", "hourly_fit/adaptive", "hourly_fit/real", "crosshair/leaves", "conditioning/float", "objects/daily", "objects/billing"]
     return out
 
 
@@ -264,9 +264,17 @@ def replay_safe_divide(inp):
     return bad, f"_safe_divide({num}, {den}, {md}) = {v}"
 
 
+def reporting_index(n, span):
+    """'days': consecutive days across a month boundary; 'two-januaries': a period that touches the same calendar month in two
+    years (the month polynomial of the uncertainty counts calendar months)"""
+    if span == "two-januaries":
+        return pd.DatetimeIndex([pd.Timestamp(d, tz="UTC") for d in ["2021-01-30", "2022-01-14", "2021-02-01", "2021-06-01"][:n]]).sort_values()
+    return pd.date_range("2021-01-30", periods=n, freq="D", tz="UTC")
+
+
 def replay_reporting(inp):
     n, env = inp["n"], inp["env"]
-    idx = pd.date_range("2021-01-30", periods=n, freq="D", tz="UTC")
+    idx = reporting_index(n, inp.get("span", "days"))
     obs = [float(env.get(f"o{i}", 0.0)) if inp["os"][i] == "val" else np.nan for i in range(n)]
     ps = inp.get("ps") or ["val"] * n
     pred = [float(env.get(f"q{i}", 0.0)) if ps[i] == "val" else np.nan for i in range(n)]
@@ -283,6 +291,15 @@ def replay_reporting(inp):
     got_t = float(rm.t_stat)
     if abs(got_t - want_t) > 1e-9 * max(1.0, abs(want_t)):
         return True, f"t_stat {got_t} for confidence {conf}, {tail} tail(s), 5 degrees of freedom; the t quantile is {want_t}"
+    if fin and inp["freq"] in ("daily", "billing"):
+        fi = [i for i, (o, q) in enumerate(zip(obs, pred)) if np.isfinite(o) and np.isfinite(q)]
+        M = len(idx[fi].month.unique())
+        k = float(np.polyval([-0.00024, 0.03535, 1.00286] if inp["freq"] == "daily" else [-0.00022, 0.03306, 0.94054], M))
+        m_ = len(fi)
+        want_u = k * sum(q for _, q in fin) * want_t * float(env["bcv"]) * np.sqrt(float(env["bn"]) / (m_ * float(env["bnp"])) * (1 + 2 / float(env["bnp"])))
+        got_u = rm.total_savings_uncertainty
+        if got_u is not None and np.isfinite(want_u) and abs(float(got_u) - want_u) > 1e-9 * max(1.0, abs(want_u)):
+            return True, f"total_savings_uncertainty {got_u}, ASHRAE-14 formula with {M} calendar month(s) gives {want_u}"
     return bad, f"savings {rm.savings} vs {sav}"
 
 
@@ -547,6 +564,42 @@ def run_conditioning(case):
     case.sample(dict(check="float conditioning of BaselineMetrics", series=len(paths)))
 
 
+# ----------------------------------------------------------------- the statistics a model reports are its own
+
+def replay_objects(inp):
+    """model.error of a fitted daily/billing model is the statistic of ITS fit: fitting another model object (or creating one)
+    leaves it alone, and an unfitted object reports NaN (real fit/_fit/_get_error_metrics, optimiser stand-ins as in C02)"""
+    from . import c02, c04
+    pr = [x for x in c02.interleave_scenario(inp["fam"], inp["poor_a"], inp["poor_b"], inp["predict_between"]) if "error" in x]
+    fresh = c04.FAM[inp["fam"]][0]()
+    if not all(v != v for v in fresh.error.values()):
+        pr.append(f"a model object that was never fitted reports error metrics {dict(fresh.error)}")
+    return bool(pr), "; ".join(pr[:3])
+
+
+REPLAY_OBJECTS = replay_objects
+
+
+def run_objects(case, fam):
+    case.inputs = []
+
+    def run():
+        inp = dict(fam=fam, poor_a=F.choose("poor_a", [False, True]), poor_b=F.choose("poor_b", [False, True]), predict_between=F.choose("predict_between", [False, True]))
+        return inp, replay_objects(inp)
+
+    paths = case.explore(run)
+    for p in paths:
+        if p.outcome != "ret":
+            case.rep["harness_errors"].append(f"two-object scenario raised {p.value!r}")
+            continue
+        inp, (bad, det) = p.value
+        label = "the fit statistics a model object reports are those of its own fit (another object's fit does not change them; an unfitted object reports none)"
+        if not case.ground(not bad, label):
+            case.violation(label, "objects", inp, det)
+        case.regime("two model objects fitted in one process")
+    case.sample(dict(family=fam, histories=len(paths)))
+
+
 # ----------------------------------------------------------------- second engine: CrossHair on the pure-Python leaves
 
 XH_SRC = '''
@@ -616,7 +669,7 @@ def run_crosshair(case):
     case.rep["paths"] += len(res)
 
 
-REPLAY = {"conditioning": replay_conditioning, "hourly_real": (lambda inp: replay_hourly_real(inp)[:2]), "xhair": replay_xhair, "hourly_fit": replay_hourly_fit, "gate": replay_gate, "baseline": replay_baseline, "safe_divide": replay_safe_divide, "reporting": replay_reporting, "daily_error": replay_daily_error}
+REPLAY = {"objects": replay_objects, "conditioning": replay_conditioning, "hourly_real": (lambda inp: replay_hourly_real(inp)[:2]), "xhair": replay_xhair, "hourly_fit": replay_hourly_fit, "gate": replay_gate, "baseline": replay_baseline, "safe_divide": replay_safe_divide, "reporting": replay_reporting, "daily_error": replay_daily_error}
 
 
 def daily_error(resid, obs, wsse):
@@ -649,6 +702,8 @@ def run_case(case: Case, name: str):
         return run_crosshair(case)
     if kind == "conditioning":
         return run_conditioning(case)
+    if kind == "objects":
+        return run_objects(case, name.split("/")[1])
     return run_daily_error(case, n)
 
 
@@ -776,14 +831,14 @@ def run_reporting(case, n):
             conf, tail = F.choose("conf", [0.9, 0.68]), F.choose("tail", [2, 1])
             obs, os_ = F.sym_cells("o", n)
             pred, ps_ = F.sym_cells("q", n)  # a day without temperature has usage but no prediction
-            idx = pd.date_range("2021-01-30", periods=n, freq="D", tz="UTC")
+            idx = reporting_index(n, F.choose("span", ["days", "two-januaries"]))
             df = pd.DataFrame({"observed": SymArray(obs), "predicted": SymArray(pred)}, index=idx)
             for c in (z3.Real("bn") >= 1, z3.Real("bnp") > 0, z3.Real("t") > 0):
                 eng.assume(c)
             base = types.SimpleNamespace(n=real("bn"), n_prime=real("bnp"), ddof=5.0, cvrmse_autocorr_adj=real("bcv"))
             rm = mt.ReportingMetrics.model_construct(baseline_metrics=base, reporting_df=df, data_frequency=freq, confidence_level=conf, t_tail=tail)
             out = dict(n=rm.n, savings=rm.savings, unc=rm.total_savings_uncertainty, fsu=rm.fsu, pt=rm.predicted_data_point_unc, idx=idx)
-            return (os_, ps_), dict(out, conf=conf, tail=tail, asked=list(asked))
+            return (os_, ps_), dict(out, conf=conf, tail=tail, asked=list(asked), span=("days" if idx[-1] - idx[0] < pd.Timedelta(days=30) else "two-januaries"))
 
         with _ctx(), patched(mt, t_stat=_t):
             paths = case.explore(run)
@@ -795,7 +850,8 @@ def run_reporting(case, n):
                 continue
             (os_, ps_), v = p.value
             fin = [i for i in range(n) if os_[i] == "val" and ps_[i] == "val"]
-            rp = ("reporting", (lambda a, b, c, d: lambda mdl: dict(n=n, freq=freq, os=a, ps=b, conf=c, tail=d, env=model_env(mdl, case.inputs)))(os_, ps_, v["conf"], v["tail"]))
+            rp = ("reporting", (lambda a, b, c, d, e: lambda mdl: dict(n=n, freq=freq, os=a, ps=b, conf=c, tail=d, span=e, env=model_env(mdl, case.inputs)))(os_, ps_, v["conf"], v["tail"], v["span"]))
+            case.regime("reporting period touching the same calendar month in two years", v["span"] == "two-januaries")
             case.regime("reporting row with usage but no prediction", any(o == "val" and q == "nan" for o, q in zip(os_, ps_)))
             if v["asked"]:
                 # the t quantile is a contract stub: what it is asked for is part of the statistic
